@@ -171,12 +171,27 @@ def gen_curve(rng, f, cls=None):
     return np.asarray(y, dtype=float), cls
 
 
-def gen_range(rng, f):
+def gen_range(rng, f, curve=None):
     k = str(rng.choice(["none", "low-only", "high-only", "on-sample", "mid-sample", "midway", "below", "above",
                         "inverted", "zero-width", "huge-upper", "random"]))
     lo = hi = None
     n = f.size
     i, j = sorted(rng.integers(0, n, 2))
+    if curve is not None and n >= 5 and rng.random() < 0.15:
+        # a range end that hugs the highest sample of a curve: it falls between that sample's neighbour and the sample
+        # itself, nearer to the neighbour, so that the peak is the FIRST (or last) sample strictly inside the range
+        p = int(np.argmax(np.asarray(curve, dtype=float)))
+        if 1 <= p <= n - 2:
+            u = float(rng.uniform(0.05, 0.45))
+            k = "hugging-the-highest-sample"
+            if rng.random() < 0.5:
+                lo = float(f[p - 1] + u * (f[p] - f[p - 1]))
+                hi = None if rng.random() < 0.5 else float(f[min(n - 1, p + int(rng.integers(2, 40)))])
+            else:
+                hi = float(f[p + 1] - u * (f[p + 1] - f[p]))
+                lo = None if rng.random() < 0.5 else float(f[max(0, p - int(rng.integers(2, 40)))])
+            r = (lo, hi)
+            return (list(r) if rng.random() < 0.3 else r), k
     if k == "low-only":
         lo = float(rng.uniform(f[0] - 1, f[-1] + 1))
     elif k == "high-only":
@@ -245,7 +260,7 @@ def fam_curve(ctx, rng):
     c = cls(f, y)
     hist = []
     for _ in range(int(rng.integers(1, 9))):
-        r, rk = gen_range(rng, f)
+        r, rk = gen_range(rng, f, y)
         if rng.random() < 0.2 and hist:
             r, rk = hist[-1]
         hist.append((r, rk))
@@ -334,7 +349,7 @@ def fam_traditional(ctx, rng):
     h = hvsrpy.HvsrTraditional(f, amp)
     hist = []
     for _ in range(int(rng.integers(1, 8))):
-        r, rk = gen_range(rng, f)
+        r, rk = gen_range(rng, f, amp[int(rng.integers(0, m))])
         if rng.random() < 0.2 and hist:
             r, rk = hist[-1]
         hist.append((r, rk))
@@ -377,7 +392,7 @@ def fam_azimuthal(ctx, rng):
     az = hvsrpy.HvsrAzimuthal(hv, list(np.sort(rng.uniform(0, 180, naz))))
     hist = []
     for _ in range(int(rng.integers(1, 6))):
-        r, rk = gen_range(rng, f)
+        r, rk = gen_range(rng, f, hv[int(rng.integers(0, naz))].amplitude[0])
         hist.append((r, rk))
         if rng.random() < 0.15:
             ctx.count("objects_recreated_by_" + gen.recreate_in_place(rng, az))
